@@ -224,7 +224,16 @@ func (p *lexer) typeName() string {
 		}
 		break
 	}
-	b.WriteString(p.ident())
+	id := p.ident()
+	b.WriteString(id)
+	if id == "map" && p.isOp("[") {
+		// map[K]V (ext_crypto.go: map-typed binders, e.g. `forall m map[int]*[32]byte :: ...`)
+		p.expect("[")
+		b.WriteString("[" + p.typeName() + "]")
+		p.expect("]")
+		b.WriteString(p.typeName())
+		return b.String()
+	}
 	if p.accept(".") {
 		b.WriteString(".")
 		b.WriteString(p.ident())
